@@ -23,6 +23,8 @@ func init() {
 		EnumRule:    "obligations per rule and construct (driver method / switch / parameter)",
 		Assumptions: []string{"pixel-exact rendering, padding bytes and memory safety of the glyph walk in general are not decided", "pitch >= width * bytesPerPixel (quantifier of C19)"},
 		Controls: []Control{
+			{Name: "grid width from the pitch", File: "kernel/device/video/console/vesa_fb.go", Old: "\tcons.widthInChars = cons.width / f.GlyphWidth\n", New: "\tcons.widthInChars = cons.pitch / (f.GlyphWidth * cons.bytesPerPixel)\n", Expect: "C19.R6"},
+			{Name: "framebuffer slice rounded up to pages", File: "kernel/device/video/console/vesa_fb.go", Old: "\tfbSize := uintptr(cons.height * cons.pitch)\n", New: "\tfbSize := (uintptr(cons.height*cons.pitch) + mm.PageSize - 1) &^ (mm.PageSize - 1)\n", Expect: "C19.R6"},
 			{Name: "full-width fast path in fill24", File: "kernel/device/video/console/vesa_fb.go", Old: "func (cons *VesaFbConsole) fill24(pX, pY, pW, pH uint32, bg uint8) {\n\tcomp := cons.packColor24(bg)\n\tfbRowOffset := cons.fbOffset(pX, pY)\n", New: "func (cons *VesaFbConsole) fill24(pX, pY, pW, pH uint32, bg uint8) {\n\tcomp := cons.packColor24(bg)\n\tfbRowOffset := cons.fbOffset(pX, pY)\n\tif pW == cons.width {\n\t\tpW, pH = pW*pH, 1\n\t}\n", Expect: "C19.R6"},
 			{Name: "scroll distance from width*bytesPerPixel instead of the pitch", File: "kernel/device/video/console/vesa_fb.go", Old: "\toffset := cons.fbOffset(0, lines*cons.font.GlyphHeight-cons.offsetY)", New: "\toffset := lines * cons.font.GlyphHeight * cons.width * cons.bytesPerPixel", Expect: "C19.R6"},
 			{Name: "full-width fill collapsed into one run", File: "kernel/device/video/console/vesa_fb.go", Old: "\tpH := height * cons.font.GlyphHeight\n\tswitch cons.bpp {", New: "\tpH := height * cons.font.GlyphHeight\n\tif x == 1 && width == cons.widthInChars {\n\t\tpW, pH = pH*(cons.pitch/cons.bytesPerPixel), 1\n\t}\n\tswitch cons.bpp {", Expect: "C19.R6"},
